@@ -67,11 +67,19 @@ impl Body for ScriptBody {
     type Error = tonic::Status;
     fn poll_frame(mut self: Pin<&mut Self>, cx: &mut Context<'_>) -> Poll<Option<Result<Frame<Bytes>, tonic::Status>>> {
         if self.ended {
+            // `http_body::Body`: a body that has returned `None` must not be polled again - what happens then is the
+            // body's business (a `StreamBody` over a non-fused stream panics, seed C17h).  The scripted body is such a
+            // strict one: the poll is counted (the `ae` column) and, except in the as-found replay mode of C17, it
+            // panics - a layer that forgets that its inner body has ended loses the status for its caller.
+            static ASIS: std::sync::OnceLock<bool> = std::sync::OnceLock::new();
             let n = {
                 let mut g = self.after_end.lock().unwrap();
                 *g += 1;
                 *g
             };
+            if !*ASIS.get_or_init(|| std::env::var_os("VERIF_C17_ASIS").is_some()) {
+                panic!("inner body polled after its end");
+            }
             if n > 1000 {
                 panic!("busy-loop");
             }
